@@ -190,6 +190,63 @@ pub fn run_resume(args: &Args) {
     part.finish(args.out.as_deref());
 }
 
+/// C18 supplement: the bound of C18 is stated "in terms of its tuning", so the tuning a
+/// connection runs with must be the tuning that was asked for: every order of the three
+/// `ConnectionTuning` builders (each possibly called twice, the later call winning) over boundary
+/// values around the defaults yields exactly the given values.
+pub fn run_tuning(args: &Args) {
+    use amiquip::ConnectionTuning;
+    let mut part = Part::new("C18", "tuning-builders", "seqx", "exploration", &args.tier);
+    part.rule = "ConnectionTuning::default() followed by every sequence of 1..=4 builder calls (mem_channel_bound, buffered_writes_high_water, buffered_writes_low_water) with values from {0, 1, 16 MiB - 1, 16 MiB, 16 MiB + 1, 20 MiB, usize::MAX}: each field equals the argument of the last call of its builder, or the documented default (16, 16 MiB, 0)".into();
+    let m = 16usize << 20;
+    let vals = [0usize, 1, m - 1, m, m + 1, 20 << 20, usize::MAX];
+    let mut calls: Vec<(usize, usize)> = Vec::new();
+    for b in 0..3 {
+        for v in vals {
+            calls.push((b, v));
+        }
+    }
+    let max_len = if args.thorough() { 4 } else { 3 };
+    let mut reported = 0;
+    let mut seqs: Vec<Vec<(usize, usize)>> = vec![vec![]];
+    for _ in 0..max_len {
+        let mut next = Vec::new();
+        for s in &seqs {
+            if s.len() + 1 > max_len {
+                continue;
+            }
+            for c in &calls {
+                let mut n = s.clone();
+                n.push(*c);
+                next.push(n);
+            }
+        }
+        for s in &next {
+            part.evaluations += 1;
+            part.distinct_nontrivial += 1;
+            let mut t = ConnectionTuning::default();
+            let mut want = [16usize, m, 0];
+            for (b, v) in s {
+                t = match b {
+                    0 => t.mem_channel_bound(*v),
+                    1 => t.buffered_writes_high_water(*v),
+                    _ => t.buffered_writes_low_water(*v),
+                };
+                want[*b] = *v;
+            }
+            let got = [t.mem_channel_bound, t.buffered_writes_high_water, t.buffered_writes_low_water];
+            if got != want && reported < 5 {
+                reported += 1;
+                let names = ["mem_channel_bound", "buffered_writes_high_water", "buffered_writes_low_water"];
+                let called: Vec<String> = s.iter().map(|(b, v)| format!("{}({})", names[*b], v)).collect();
+                part.violation("tuning:field-differs-from-argument", format!("default().{} gives (bound, high, low) = {:?}, expected {:?}", called.join("."), got, want), json!({"engine":"seqx","check":"handover","kind":"tuning","calls":called}));
+            }
+        }
+        seqs = next;
+    }
+    part.finish(args.out.as_deref());
+}
+
 pub fn replay(v: &serde_json::Value) -> bool {
     println!("re-run: seqx handover (case {} / {} / pause {})", v["op"], v["kind"], v["pause_ms"]);
     true
